@@ -38,7 +38,8 @@ type Fault struct {
 	Call int    `json:"call,omitempty"`
 	Kind string `json:"kind"`
 	// Seam restricts the fault to calls on the named seam ("" = any).
-	Seam string `json:"seam,omitempty"`
+	Seam   string `json:"seam,omitempty"`
+	Method string `json:"method,omitempty"`
 	// Burst: number of consecutive matching calls that fail (default 1).
 	Burst int `json:"burst,omitempty"`
 	// Mutating restricts K counting to mutating calls.
@@ -86,6 +87,7 @@ type Env struct {
 	CurOp    int
 	opCalls  int
 	opMut    int
+	opSeam   map[string]int
 	calls    int
 	Record   bool
 	Trace    []CallRec
@@ -128,6 +130,7 @@ func (e *Env) BeginOp(i int) {
 	e.CurOp = i
 	e.opCalls = 0
 	e.opMut = 0
+	e.opSeam = map[string]int{}
 	e.mu.Unlock()
 }
 
@@ -162,6 +165,11 @@ func (e *Env) Enter(g *Gen, seam, method string, mutating bool) (kind string, ar
 	if mutating {
 		e.opMut++
 	}
+	if e.opSeam == nil {
+		e.opSeam = map[string]int{}
+	}
+	e.opSeam[seam]++
+	e.opSeam[seam+"."+method]++
 	e.CallsBy[seam+"."+method]++
 	if e.Record {
 		e.Trace = append(e.Trace, CallRec{Op: e.CurOp, K: e.opCalls, Seam: seam, Method: method, Mut: mutating})
@@ -181,6 +189,17 @@ func (e *Env) Enter(g *Gen, seam, method string, mutating bool) (kind string, ar
 			} else {
 				if f.Op >= 0 {
 					k := e.opCalls
+					if f.Seam != "" {
+						// K counts calls on the named seam only; with
+						// Method, calls of that method on that seam
+						k = e.opSeam[seam]
+						if f.Method != "" {
+							if f.Method != method {
+								continue
+							}
+							k = e.opSeam[seam+"."+method]
+						}
+					}
 					if f.Mutating {
 						k = e.opMut
 						if !mutating {
